@@ -4,6 +4,7 @@ import Noodles.Index.Driver
 import Noodles.Csi.DriverC04
 import Noodles.Fasta.DriverC11
 import Noodles.Bgzf.Driver
+import Noodles.Bgzf.DriverC01Stored
 import Noodles.Bgzf.DriverC02
 import Noodles.Bgzf.DriverC02Indexed
 import Noodles.Bgzf.DriverC03
@@ -23,6 +24,7 @@ import Noodles.Io.DriverC14More
 import Noodles.Io.DriverC14Once
 import Noodles.Vcf.DriverC09
 import Noodles.Vcf.DriverC09Header
+import Noodles.Vcf.DriverC09LazyAny
 import Noodles.Sam.DriverC06
 import Noodles.Sam.DriverC06File
 import Noodles.Util.DriverC20
@@ -40,7 +42,7 @@ def dispatch (line : String) : String :=
   match words line with
   | "c17" :: rest => (Index.handleIndex rest).getD (Csi.handle rest)
   | "c04" :: rest => Csi.handleC04 rest
-  | "c01" :: rest => Bgzf.handleC01 rest
+  | "c01" :: rest => (Bgzf.StoredDrv.handle? rest).getD (Bgzf.handleC01 rest)
   | "c02" :: rest => (Bgzf.IR.handle? rest).getD (Bgzf.RM.handleC02 rest)
   | "c03" :: rest => (MtTrunc.handle? rest).getD (MtModel.handleC03 rest)
   | "c11" :: rest => Fasta.handleC11 rest
@@ -52,7 +54,7 @@ def dispatch (line : String) : String :=
   | "c05" :: "re" :: rest => Bam.DriverReenc.handle rest
   | "c05" :: rest => Bam.Driver.handle rest
   | "c14" :: rest => (WP.Once.Driver.handle? rest <|> WP.Driver.handle? rest).getD (Bgzf.SM.handleC14 rest)
-  | "c09" :: rest => (Vcf.DriverHeader.handle? rest).getD (Vcf.Driver.handle rest)
+  | "c09" :: rest => ((Vcf.DriverHeader.handle? rest).orElse fun _ => Vcf.DriverLazyAny.handle? rest).getD (Vcf.Driver.handle rest)
   | "c06" :: rest => (Sam.File.Drv.handle? rest).getD (Sam.Drv.handleC06 rest)
   | "c20" :: rest => (Util.DriverMore.handle? rest).getD (Util.handleC20 rest)
   | "c12" :: rest => IO.handleC12All rest
